@@ -728,8 +728,9 @@ class Absolute(Unary):
         self.signed = False
 
     def calculate_unary(self, dst, long):
-        with self.ebpf.sr[dst] < 0:
-            self.ebpf.sr[dst] = -self.ebpf.sr[dst]
+        regs = self.ebpf.sr if long else self.ebpf.sw
+        with regs[dst] < 0:
+            regs[dst] = -regs[dst]
 
 
 class SwitchEndian(Unary):
